@@ -64,6 +64,7 @@ func main() {
 
 	if !r.Thorough() {
 		plan.CorpusDirs = pdiff.CoreCorpusDirs
+		plan.CorpusDirsPerRun = len(pdiff.CoreCorpusDirs) // one `ego test` command line per pass
 		plan.CorpusTraceDirs = []string{"cast", "defer", "errors"}
 		// The file-bound variants differ from their console twins only in
 		// where the report goes: quick runs them in dynamic mode only.
